@@ -44,6 +44,12 @@ def _unchanged(before, after, what):
         raise ArgumentsMutated("%s changed from %r to %r" % (what, before, after))
 
 
+def _fresh_str(s):
+    """an equal string that is a different object (callers get the mode from
+    configuration files and command lines, not from the library's constant)"""
+    return "".join(list(s))
+
+
 def run_op(client, op):
     """-> (result, exc).  result is normalised (hashable) or None.
     For walk-type operations the items yielded before an exception are kept
@@ -86,11 +92,11 @@ def run_op(client, op):
                 ("listing", tuple((norm_oid(k), norm_value(v)) for k, v in res.listing.items())),
             ), None
         if name == "walk":
-            kw = {"errors": args[1]} if len(args) > 1 else {}
+            kw = {"errors": _fresh_str(args[1])} if len(args) > 1 else {}
             items, exc = drive.drain(client.walk(OID(args[0]), **kw), WALK_LIMIT)
             return tuple(_vb(v) for v in items), exc
         if name == "multiwalk":
-            kw = {"errors": args[1]} if len(args) > 1 else {}
+            kw = {"errors": _fresh_str(args[1])} if len(args) > 1 else {}
             oids = [OID(o) for o in args[0]]
             keep = list(oids)
             items, exc = drive.drain(client.multiwalk(oids, **kw), WALK_LIMIT)
